@@ -146,3 +146,16 @@ func ghostLevelSorted(ll *LevelList, i int) bool {
 //@ func NewTableFromDocument$0
 //@   property C09
 //@   atcall deleteFunc: canDelete && err == nil
+
+// ghostTableURI: the URI of a table's file (fixed when the table is created).
+var ghostTableURI func(t *Table) string
+
+//@ func Table.URI
+//@   property C09
+//@   trusted
+//@   modifies nothing
+//@   ensures result == ghostTableURI(t)
+
+//@ func Level.AllTables
+//@   property C09 C18
+//@   inline
